@@ -31,6 +31,7 @@ type Xlat struct {
 	loopHdrCount map[string]int
 	lockstep bool
 	qn int
+	typeTags map[string]int
 	entryMeasure *Term
 	specInfos map[string]*specFnInfo
 	specPlaceholder map[string]bool
